@@ -59,6 +59,9 @@ func Abstract(v reflect.Value) any {
 	if t == tTime {
 		return v.Interface().(time.Time)
 	}
+	if t.Kind() == reflect.Struct && t.ConvertibleTo(tTime) {
+		return v.Convert(tTime).Interface().(time.Time) // named type over time.Time (component schema)
+	}
 	if isWrapper(t) {
 		if !v.Field(0).Bool() {
 			return Unset{}
